@@ -11,5 +11,8 @@ CodesOk == {"ok"}
 CodesOkBusy == {"ok", "busy"}
 KindsRetryNS == {"final", "garbage", "trunc", "lost", "xerr"}
 NeedsBodyDef == {"A", "B"}
+CmdsGH == {"G", "H"}
+CmdsAGH == {"A", "G", "H"}
+CodesOkErr == {"ok", "err"}
 CmdsAB == {"A", "B"}
 =============================================================================
